@@ -84,7 +84,7 @@ RepPlans(n, v) ==
 Rels == <<"zero", "one", "half", "minus1", "exact", "plus1">>
 SinkPlans(n, v) ==
   {<<OpBuild(1), OpEncode(1, s)>> \o [i \in DOMAIN Rels |-> OpEncodeBuf(1, s, Rels[i])]
-     \o [k \in 1..(MaxFail + 1) |-> OpEncodeCb(1, s, k - 1)] \o <<OpFree(1)>> : s \in Syntaxes}
+     \o [k \in 1..(MaxFail + 1) |-> OpEncodeCb(1, s, k - 1)] \o <<OpEncodeCbSweep(1, s, "once"), OpEncodeCbSweep(1, s, "from"), OpFree(1)>> : s \in Syntaxes}
   \cup {<<OpBuildVal(1, x), OpEncode(1, s), OpEncodeCb(1, s, 0), OpEncodeCb(1, s, 1), OpEncodeBuf(1, s, "plus1"), OpFree(1)>> :
           s \in Syntaxes, x \in Take(Corruptions(RawEnv, TRef(n), v), 2)}
   \cup (IF v = CHOOSE w \in Values(RawEnv, TRef(n), Depth) : TRUE
